@@ -349,6 +349,9 @@ class Fn:
             raise Unsupported("keyword arguments")
         f = e.func
         pat = dotted(f)
+        if pat is None and isinstance(f, ast.Attribute) and isinstance(f.value, ast.Call) and dotted(f.value.func) == "super" \
+                and not f.value.args and not f.value.keywords:
+            pat = "super()." + f.attr
         if pat is not None and pat in self.calls:
             head, argtys, rty = self.calls[pat]
             args = [self.expr(a) for a in e.args]
@@ -879,6 +882,15 @@ SPECS = [
                 "build_metric_action": ("gen_build_metric_action", ["str", "args", "metrics"], "option gaction"),
                 "build_span_action": ("gen_build_span_action", ["str", "args"], "option gaction"),
                 "Trigger": ("mk_trigger", ["loc", "list gaction"], "gtrigger")}),
+    # ---- metric actions (C17)
+    dict(group="Metrics", name="gen_has_metric_processor", path="processor/context/metric_action.py", cls="MetricActionContext", func="__has_metric_processor",
+         params="(has_processor : bool)", ret="bool", args=["self"], env={"self.trigger_context.config.has_metric_processor": ("has_processor", "bool")}),
+    dict(group="Metrics", name="gen_metric_can_trigger", path="processor/context/metric_action.py", cls="MetricActionContext", func="can_trigger",
+         params="(has_processor : bool) (action_gate : bool)", ret="bool", args=["self"],
+         calls={"self.__has_metric_processor": ("gen_has_metric_processor has_processor", [], "bool"),
+                "super().can_trigger": ("action_gate", [], "bool")}),
+    dict(group="Metrics", name="gen_convert_type", path="processor/context/metric_action.py", cls="MetricActionContext", func="_convert_type",
+         params="(metric_type : str)", ret="str", args=["self", "metric_type"], env={"metric_type": ("metric_type", "str")}),
     # ---- pending callbacks (C15)
     dict(group="Callbacks", name="gen_cb_next_line", path="processor/context/callback_context.py", cls="CallbackContext", func="__check_at_next_line",
          params="(c_event c_file c_func event file function_name : str)", ret="bool", args=["self", "event", "file", "function_name"], env={"event": ("event", "str"), "file": ("file", "str"), "function_name": ("function_name", "str"), "line": ("line", "Z"), "frame": ("tt", "unit"), "self.__event": ("c_event", "str"), "self.__filename": ("c_file", "str"), "self.__function_name": ("c_func", "str")}),
@@ -1015,6 +1027,7 @@ GROUPS = {           # generated file -> (imports, which properties' theorems ar
     "Store": ("From Deep Require Import Base Attrs PureSupport.", ["C18"]),
     "Service": ("From Deep Require Import Base ConfigSvc PureSupport.", ["C12", "C13"]),
     "Callbacks": ("From Deep Require Import Base PureSupport.", ["C15"]),
+    "Metrics": ("From Deep Require Import Base Config PureSupport.", ["C17"]),
 }
 HEADER = '''(* GENERATED by harness/translate/pure.py from /repo/src/deep - do not edit.
    Each definition is the statement-by-statement translation of one pure function of the agent. *)
